@@ -113,7 +113,7 @@ func newCWorld(init cState, v cVariant, seed int64) *cWorld {
 		} else {
 			res = newRes(v.Impl, s.Name, s.Fields, w.km)
 		}
-		res.Set("id", s.ID)
+		res.Set("id", cID(s.ID))
 		for f, val := range s.Vals {
 			setField(res, f, s.Fields[f], val, w.km, w.tb)
 		}
@@ -131,7 +131,7 @@ func (w *cWorld) apply(op cOp) string {
 		case "Add":
 			w.col.Add(w.srcs[op.Src-1])
 		case "Remove":
-			w.col.Remove(op.ID)
+			w.col.Remove(cID(op.ID))
 		case "AddAttr":
 			err = w.col.AddAttr(w.km.attr(op.Name, op.Def))
 		case "AddRel":
@@ -149,6 +149,21 @@ func (w *cWorld) apply(op cOp) string {
 		return "err"
 	}
 	return "ok"
+}
+
+// cID / aID: the model's id "0" is the empty id (a resource that was never given one)
+func cID(tok string) string {
+	if tok == "0" {
+		return ""
+	}
+	return tok
+}
+
+func aID(id string) string {
+	if id == "" {
+		return "0"
+	}
+	return id
 }
 
 func (w *cWorld) project() (cState, cObs) {
@@ -170,6 +185,7 @@ func (w *cWorld) project() (cState, cObs) {
 			continue
 		}
 		id, _ := r.Get("id").(string)
+		id = aID(id)
 		obs.At = append(obs.At, id)
 		if i >= 0 && i < n {
 			defs, vals := projVals(r, w.km, w.tb)
@@ -177,8 +193,8 @@ func (w *cWorld) project() (cState, cObs) {
 			obs.ItemDefs = append(obs.ItemDefs, defs)
 		}
 	}
-	for _, id := range []string{"1", "2", "3", "9"} {
-		r := w.col.Resource(id, nil)
+	for _, id := range []string{"1", "2", "3", "9", "0"} {
+		r := w.col.Resource(cID(id), nil)
 		obs.ByID[id] = 0
 		if r != nil && reflectIsNil(r) {
 			obs.ByID[id] = -2 // a typed nil
@@ -197,6 +213,7 @@ func (w *cWorld) project() (cState, cObs) {
 	for i, s := range w.srcs {
 		defs, vals := projVals(s, w.km, w.tb)
 		id, _ := s.Get("id").(string)
+		id = aID(id)
 		shared := false
 		if sr, ok := s.(*jsonapi.SoftResource); ok && sr.Type == w.col.Type {
 			shared = true
